@@ -225,6 +225,70 @@ def run(rep, ctx):
                 f1.check(any(x in t for x in COMPUTED_OK), key, short_loc(c.get("l")), "%s: result type computed from the arguments: %s" % (ty, t[:70]),
                          "%s: result type `%s` is not derived from the argument types" % (ty, t[:70]))
 
+    # ---- F2: the helpers the computed types rest on -------------------------------------------------
+    f2 = rep.rule("C06.F2", "TABLE", "common_type is INTEGER only if every argument is an integer variable or fixed at an integer value; is_binary_var only for {0,1}-valued variables", floor=2)
+
+    def truth(e, env):
+        """evaluate a boolean expression over atoms; env maps atom text -> bool"""
+        e = strip(e)
+        if e["k"] == "BinaryOperator" and e.get("op") in ("&&", "||"):
+            a, b = truth(kids(e)[0], env), truth(kids(e)[1], env)
+            return (a and b) if e["op"] == "&&" else (a or b)
+        if e["k"] == "UnaryOperator" and e.get("op") == "!":
+            return not truth(kids(e)[0], env)
+        t = norm(render(e)).replace(" ", "")
+        if t not in env:
+            raise KeyError(t)
+        return env[t]
+    cts = [g for g in funcs if g.qn == "mp::FlatModel::common_type"]
+    if not cts:
+        raise AnalysisBroken("C06.F2: FlatModel::common_type not found")
+    for g in cts[:3]:
+        ifs = [n for n in g.walk() if n["k"] == "IfStmt"]
+        asg = [n for n in g.walk() if n["k"] == "BinaryOperator" and n.get("op") == "=" and norm(render(kids(n)[0])) == "type"]
+        init = [v for v in g.walk() if v["k"] == "VarDecl" and v.get("name") == "type"]
+        rets = [r for r in g.walk() if r["k"] == "ReturnStmt"]
+        ok = len(ifs) == 1 and len(asg) == 1 and len(init) == 1 and "INTEGER" in render(init[0]) and "CONTINUOUS" in render(asg[0]) and len(rets) == 1 and norm(render(kids(rets[0])[0])) == "type" \
+            and any(n["k"] == "CXXForRangeStmt" for n in g.walk())
+        bad = None
+        if ok:
+            try:
+                for a in (False, True):
+                    for b in (False, True):
+                        for c in (False, True):
+                            env = {"is_integer_var(v)": a, "is_fixed(v)": b, "is_integer_value(fixed_value(v))": c}
+                            demoted = truth(kids(ifs[0])[0], env)
+                            integral = a or (b and c)
+                            if not integral and not demoted:
+                                bad = "an argument that is %san integer variable, %sfixed%s keeps the result type INTEGER" % ("" if a else "not ", "" if b else "not ", (" at an integer value" if c else " at a fractional value") if b else "")
+            except KeyError as ke:
+                ok = False
+                bad = "unrecognised atom %s" % ke
+        key = "common_type|%s" % ("list" if "initializer_list" in g.full else "array" if "std::array" in g.full else "vector")
+        f2.check(ok and bad is None, key, short_loc(g.loc), "common_type: the type is demoted to CONTINUOUS for every argument that is neither an integer variable nor fixed at an integer value",
+                 "common_type: %s: the result variable of min/max/if-then-else is declared integer although the expression takes a fractional value there" % (bad or "unexpected shape"))
+    ib = [g for g in funcs if g.qn == "mp::FlatModel::is_binary_var"]
+    for g in ib[:1]:
+        rets = [r for r in g.walk() if r["k"] == "ReturnStmt"]
+        ok = len(rets) == 1
+        bad = None
+        if ok:
+            try:
+                import itertools
+                atoms = ["0==lb(v)", "1==ub(v)", "is_integer_var(v)", "is_fixed(v)", "0==fixed_value(v)", "1==fixed_value(v)"]
+                for vals in itertools.product((False, True), repeat=6):
+                    env = dict(zip(atoms, vals))
+                    if env["0==fixed_value(v)"] and env["1==fixed_value(v)"]:
+                        continue
+                    got = truth(kids(rets[0])[0], env)
+                    want = (env["0==lb(v)"] and env["1==ub(v)"] and env["is_integer_var(v)"]) or (env["is_fixed(v)"] and (env["0==fixed_value(v)"] or env["1==fixed_value(v)"]))
+                    if got and not want:
+                        bad = "is_binary_var is true for %s" % {k: v for k, v in env.items()}
+            except KeyError as ke:
+                ok = False
+                bad = "unrecognised atom %s" % ke
+        f2.check(ok and bad is None, "is_binary_var", short_loc(g.loc), "is_binary_var: integer variable with bounds [0,1], or fixed at 0 or 1", bad or "unexpected shape")
+
     # ---- G1 ---------------------------------------------------------------------------
     g1 = rep.rule("C06.G1", "GUARD", "replacement of an expression by a variable or a constant only under the exactness guards", floor=10)
     helpers = {g.name: g for g in funcs if g.qn.startswith("mp::ConstraintPreprocessors::") and g.name in ("FixEqualityResult", "ReuseEqualityBinaryVar", "CheckEmptySubCon")}
